@@ -19,6 +19,12 @@ package main
 //          | ( xparse-error ) ; a panic is caught by main.go: ( err panic ... )
 //   c18 run x<json>       both at once (one parse, one calculation): ( verdict ... ) ( x<state> ( view ) )
 //                         with the panic caught here: ( xpanic x<message> x<top repo frame> )
+//   c18 calc x<json>      the calculated BARE document of an input (as `gobl build` would write its doc member):
+//                         ( x<json> ) | ( err parse|calc )
+//   c18 vrun x<json>      the READ-AND-VALIDATE flow (`gobl validate`, bulk/HTTP action "validate", gobl.Parse + Validate):
+//                         gobl.Parse -> Validate with NO calculation before it; an envelope is validated as it is (digest
+//                         included), a bare document through schema.Object.Validate.  Output as `c18 run`, the view being
+//                         the view of the document AS READ: ( verdict ... ) ( xparsed ( view ) )
 //   c18 match x<pattern> x<value>    regexp.Compile / MatchString as Extensions.Validate uses them: compiles(1/0) matches(1/0)
 //   c18 tables            codes the linked library knows that are not in Gen/*.v:
 //                         ( ( x<country code> iso tax ) ... ) ( x<currency code> ... )
@@ -295,6 +301,37 @@ func c18Run(data []byte) (out []V) {
 	return []V{verdict, VL(VS(state), c18ViewOf(doc))}
 }
 
+// c18ValidateOnly reads a document and validates it without calculating it first.
+func c18ValidateOnly(data []byte) (out []V) {
+	defer func() {
+		if r := recover(); r != nil {
+			out = []V{VL(VS("panic"), VS(fmt.Sprint(r)), VS(topRepoFrame(string(debug.Stack())))), VL(VS(""), c18ViewOf(nil))}
+		}
+	}()
+	obj, err := gobl.Parse(data)
+	if err != nil {
+		return []V{VL(VS("parse-error")), VL(VS(""), c18ViewOf(nil))}
+	}
+	var doc any
+	if env, ok := obj.(*gobl.Envelope); ok {
+		doc = env.Extract()
+		err = env.Validate()
+	} else {
+		o, ok := obj.(*schema.Object)
+		if !ok {
+			if o, err = schema.NewObject(obj); err != nil {
+				return []V{VL(VS("parse-error")), VL(VS(""), c18ViewOf(nil))}
+			}
+		}
+		doc = o.Instance()
+		err = o.Validate()
+	}
+	if err != nil {
+		return []V{VL(VS("rejected"), VS(c18ErrKey(err)), VL(c18ErrPaths(err)...)), VL(VS("parsed"), c18ViewOf(doc))}
+	}
+	return []V{VL(VS("accepted")), VL(VS("parsed"), c18ViewOf(doc))}
+}
+
 func init() {
 	register("c18", func(a []V) []V {
 		if len(a) < 1 {
@@ -312,6 +349,25 @@ func init() {
 			return []V{verdict}
 		case "run":
 			return c18Run(a[1].S)
+		case "vrun":
+			return c18ValidateOnly(a[1].S)
+		case "calc":
+			_, state, doc := c18Process(a[1].S, false)
+			if doc == nil {
+				return []V{VErr("parse")}
+			}
+			if state != "calculated" {
+				return []V{VErr("calc")}
+			}
+			o, err := schema.NewObject(doc)
+			if err != nil {
+				return []V{VErr("calc")}
+			}
+			b, err := json.Marshal(o)
+			if err != nil {
+				return []V{VErr("calc")}
+			}
+			return []V{VL(VS(string(b)))}
 		case "raterule":
 			// c18 raterule x<country> x<cat> x<key> -> 1/0: tax.RegimeDefFor(country).InCategoryRates(cat) applied to
 			// the key alone (the rule Combo.ValidateWithContext puts on `rate`), without any calculation before it
